@@ -131,3 +131,56 @@ def rdiv_inputs(seed=0, tier='quick'):
 
 
 GENS = {'add_gap_inputs': add_gap_inputs, 'div_inputs': div_inputs, 'rdiv_inputs': rdiv_inputs}
+
+
+def interesting_mpfs(seed=0, tier='quick'):
+    """canonical finite values with boundary mantissas: small, all-ones, 2**k +- 1, around the
+    hash modulus 2**61-1 and around 2**31, 2**53, 2**64; a spread of exponents; both signs"""
+    rng = random.Random(seed)
+    mans = set(range(1, 40, 2))
+    for k in (8, 16, 24, 30, 31, 32, 52, 53, 54, 60, 61, 62, 63, 64, 65, 100, 122, 128, 200):
+        for d in (-3, -1, 1, 3):
+            mans.add((1 << k) + d)
+        mans.add((1 << k) - (1 << (k // 2)) - 1)
+    P = (1 << 61) - 1
+    for m in (P, 3 * P, 5 * P, P * P, P + 2, P - 2, 2 * P + 1, 2 * P - 1):
+        mans.add(m)
+    for _ in range(20 if tier == 'quick' else 200):
+        mans.add(rng.getrandbits(rng.choice((20, 61, 62, 70, 130))) | 1)
+    exps = (-200, -123, -62, -61, -60, -1, 0, 1, 2, 59, 60, 61, 62, 121, 122, 123, 1000)
+    for m in sorted(x for x in mans if x > 0 and x % 2 == 1):
+        for e in exps:
+            for sg in (0, 1):
+                yield mk(sg, m, e)
+
+
+def one_mpf_inputs(seed=0, tier='quick'):
+    for x in list(SPECIALS) + list(interesting_mpfs(seed, tier)):
+        yield dict(s=x)
+
+
+def two_mpf_inputs(seed=0, tier='quick'):
+    xs = list(SPECIALS) + list(small_mpfs(16, (-2, 0, 1, 3)))
+    rng = random.Random(seed)
+    big = list(interesting_mpfs(seed, tier))
+    pick = big if tier != 'quick' else rng.sample(big, min(len(big), 150))
+    for s in xs + pick:
+        for t in xs:
+            yield dict(s=s, t=t)
+    # equal top bit, different exponents (the hard case for comparison)
+    for k in (5, 20, 64, 65, 100, 130):
+        for j in (1, 2, k // 2, k - 1):
+            a = (1 << k) + 1
+            b = ((1 << k) + (1 << j)) | 1
+            for sg in (0, 1):
+                s = (sg, a, 0, a.bit_length())
+                t = (sg, b >> 0, 0, b.bit_length())
+                yield dict(s=s, t=t)
+                t2m = ((1 << k) + (1 << j))
+                tz = (t2m & -t2m).bit_length() - 1
+                t2 = (sg, t2m >> tz, tz, (t2m >> tz).bit_length())
+                yield dict(s=s, t=t2)
+                yield dict(s=t2, t=s)
+
+
+GENS.update({'one_mpf_inputs': one_mpf_inputs, 'two_mpf_inputs': two_mpf_inputs})
